@@ -465,6 +465,9 @@ def St.init (p : Pres) (bs : Bytes) : St :=
   | some n => st.pushLimit n
   | none => st
 
+/-- the presentation shows all `n` bytes: any outer limit is at least `n` -/
+def Pres.shows (p : Pres) (n : Nat) : Prop := ∀ L, p.outer = some L → n ≤ L
+
 /-- `Serialization::parse_from_coded_stream(is, value)` on a stream presenting `bs` -/
 def parse (cfg : Cfg) (t : Ty) (p : Pres) (bs : Bytes) (d : Val) : Res := decode cfg t (St.init p bs) d
 
